@@ -40,7 +40,7 @@ func init() {
 			{ID: "C16.R13", Floor: 2, Doc: "refreshRing removes hosts of the previous view only (never the freshly fetched HostInfo); the token-aware policy rebuilds its ring from the host list as it is after the change", Run: c16r13},
 			{ID: "C16.R14", Floor: 1, Doc: "handleNodeEvent dispatches the status events of a batch on every path (scheduling a ring refresh does not replace them)", Run: c16r14},
 			{ID: "C16.R17", Floor: 3, Doc: "a host's up/down state changes only through the setter with the state the caller names; it is never copied from another (freshly read) HostInfo", Run: c16HostState},
-			{ID: "C16.R18", Floor: 2, Doc: "HostInfo.Equal means 'same connect address': the host list's duplicate test (Equal) and its removal (by connect address) agree", Run: c16HostEqualByAddress},
+			{ID: "C16.R18", Floor: 1, Doc: "HostInfo.Equal means 'same connect address': the host list's duplicate test (Equal) and its removal (by connect address) agree", Run: c16HostEqualByAddress},
 			{ID: "C16.R16", Floor: 1, Doc: "the refresh debouncer stops / drains its timer before it refreshes, never between the refresh and the next wait", Run: c16r16},
 			{ID: "C16.R15", Floor: 1, Doc: "cowHostList.remove recognises an address that is not in the list (the not-found test holds initially and changes only on a match)", Run: c16r15},
 		},
